@@ -59,9 +59,12 @@ class DuckReservoir:
         self.time = SymArray([fresh(f"t{k}", pos=True) for k in range(nt)], "f8")
         self.pseudopressure = SymArray([SymArray([fresh(f"m{i}_{j}") for j in range(nx)], "f8") for i in range(nt)], "f8", (nt, nx))
         self._rf = SymArray([fresh(f"rf{k}") for k in range(nt)], "f8")
+        self._rfd = SymArray([fresh(f"rfd{k}") for k in range(nt)], "f8")      # in-place (density) recovery: a different curve
 
-    def recovery_factor(self):
-        return self._rf
+    def recovery_factor(self, time=None, density=False):
+        # as the real classes do: the last result is kept in `recovery`
+        self.recovery = self._rfd if density else self._rf
+        return self.recovery
 
 
 def _same(a, b):
@@ -100,6 +103,8 @@ def replay_plot(model, which="pseudopressure", nx=3, nt=4, every=1, rescale=Fals
     import matplotlib.pyplot as plt
     import numpy as np
     from bluebonnet import plotting
+    import matplotlib.scale as _ms
+    _ms.register_scale(plotting.SquareRootScale)      # the symbolically loaded module may have registered its own class under this name
     r, rf = _real_res(nx, nt)
     fig, ax = plt.subplots()
     problems = []
@@ -130,6 +135,40 @@ def replay_plot(model, which="pseudopressure", nx=3, nt=4, every=1, rescale=Fals
     finally:
         plt.close(fig)
     return bool(problems), {"what": f"plot_{which}: " + ("; ".join(problems[:2]) or "lines carry the data")}
+
+
+def replay_plot_after_density(model, which="factor"):
+    """Real reservoir: simulate, ask for the in-place (density) recovery, then plot: the curve must still be recovery_factor()."""
+    import matplotlib
+    matplotlib.use("Agg")
+    import matplotlib.pyplot as plt
+    import numpy as np
+    from bluebonnet import plotting
+    import matplotlib.scale as _ms
+    _ms.register_scale(plotting.SquareRootScale)      # the symbolically loaded module may have registered its own class under this name
+    from bluebonnet.flow import reservoir as rr
+    from .c04 import _real_fluid
+    fluid = _real_fluid()
+    t = np.linspace(0, 2.0, 12) ** 2
+    r = rr.SinglePhaseReservoir(12, 1000.0, 8000.0, fluid)
+    r.simulate(t)
+    r.recovery_factor(density=True)
+    fresh_r = rr.SinglePhaseReservoir(12, 1000.0, 8000.0, fluid)
+    fresh_r.simulate(t)
+    rf = np.asarray(fresh_r.recovery_factor(), float)
+    fig, ax = plt.subplots()
+    try:
+        if which == "rate":
+            plotting.plot_recovery_rate(r, ax=ax)
+            want = np.gradient(rf, t)
+        else:
+            plotting.plot_recovery_factor(r, ax=ax)
+            want = rf
+        got = np.asarray(ax.get_lines()[0].get_ydata(), float)
+    finally:
+        plt.close(fig)
+    bad = got.shape != want.shape or not np.allclose(got, want, rtol=1e-9, atol=1e-12)
+    return bad, {"what": f"plot_recovery_{which} after recovery_factor(density=True): drawn {got[:4].tolist()}.. vs recovery_factor() data {want[:4].tolist()}.."}
 
 
 def replay_transform(model):
@@ -191,12 +230,17 @@ def job_recovery_plots(job, nt):
     mod = _load_plotting()
     job.encoded(mod, "plot_recovery_rate", "plot_recovery_factor")
     r = DuckReservoir(3, nt)
-    for ticks in (False, True):
+    for ticks, after_density in ((False, False), (True, False), (False, True)):
         for name, fn, y in (("rate", mod.plot_recovery_rate, None), ("factor", mod.plot_recovery_factor, r._rf)):
             def run():
                 PltStub.made.clear()
+                r.__dict__.pop("recovery", None)
+                if after_density:
+                    r.recovery_factor(density=True)     # the caller looked at the in-place recovery before plotting
                 return fn(r, ax=AxStub(), change_ticks=ticks)
-            rp = (replay_plot, {"which": name, "nx": 3, "nt": nt, "ticks": ticks})
+            rp = (replay_plot, {"which": name, "nx": 3, "nt": nt, "ticks": ticks}) if not after_density else (replay_plot_after_density, {"which": name})
+            if after_density:
+                name = name + ",after recovery_factor(density=True)"
             for k, pr in enumerate(paths(job, run, [], max_paths=64)):
                 if pr.exc is not None:
                     job.prove(f"plot_recovery_{name}[ticks={ticks}]/raises[path{k}]", pr.pc, replay=rp, bound="any data", note=repr(pr.exc)[:80])
